@@ -141,7 +141,13 @@ def coqc_file(path, timeout=900):
 
 def coqc_many(paths, timeout=900):
     with ThreadPoolExecutor(max_workers=NPROC) as ex:
-        return list(ex.map(lambda p: coqc_file(p, timeout), paths))
+        res = list(ex.map(lambda p: coqc_file(p, timeout), paths))
+    # a coqc that was KILLED (rc < 0: out-of-memory killer when many checks run at once) or ran
+    # into the timeout says nothing about the file: run it again, alone
+    for i, (rc, out, dt) in enumerate(res):
+        if rc < 0 or rc == 124:
+            res[i] = coqc_file(paths[i], timeout * 2)
+    return res
 
 
 def run_agree(vfile, tmpdir, skip=()):
